@@ -195,60 +195,212 @@ func c17Open(a *An, kf *kqFacts) {
 		failed := DNF{Conj{}}
 		failed = DNF{Conj{"x": Lit{A: &Atom{Kind: AkNil, Subj: op + "#1"}, Neg: true}}}
 		failed[0] = Conj{(&Atom{Kind: AkNil, Subj: op + "#1"}).ID(): Lit{A: &Atom{Kind: AkNil, Subj: op + "#1"}, Neg: true}}
-		// effects that take care of the descriptor
-		var handled DNF
-		for _, v := range w.Visits {
-			if !inChainOrSame(v.Ctx, O.Ctx) {
-				continue
+		// The descriptor is owned by the function that opened it, or - when that function returns it, alone or inside
+		// the watch record - by its caller, and so on upwards. In the opening function the descriptor is recognised by
+		// its access path, further up by the record's field name.
+		fdField := ""
+		if i := strings.LastIndex(fdPath, "."); i >= 0 && !strings.Contains(fdPath[i:], "(") && !strings.Contains(fdPath[i:], "[") {
+			fdField = fdPath[i+1:]
+		}
+		carries := func(frame *Ctx, top bool, v ssa.Value) bool {
+			p := stripIDs(frame.path(v))
+			if top {
+				return p == fdPath || (fdField != "" && strings.TrimSuffix(fdPath, "."+fdField) == p)
 			}
-			callV, ok := v.Instr.(*ssa.Call)
-			if !ok || v.Ctx != O.Ctx {
-				continue
-			}
-			cal := v.Ctx.calleeOf(&callV.Call)
-			if cal == nil {
-				continue
-			}
-			if fullName(cal) == "golang.org/x/sys/unix.Close" && stripIDs(v.Ctx.path(callV.Call.Args[0])) == fdPath {
-				handled = handled.or(v.Cond)
-			}
-			// a package-local call that receives the descriptor and (transitively) stores it in the descriptor table
-			if a.P.inMain(cal) {
-				for _, arg := range callV.Call.Args {
-					if stripIDs(v.Ctx.path(arg)) == fdPath && storesInto(a, w, v, kf.fdTable) {
-						handled = handled.or(v.Cond)
+			if st, ok := v.Type().Underlying().(*types.Struct); ok && fdField != "" {
+				for i := 0; i < st.NumFields(); i++ {
+					if st.Field(i).Name() == fdField {
+						return true
 					}
 				}
 			}
+			return false
 		}
-		for _, v := range w.Visits {
-			r, ok := v.Instr.(*ssa.Return)
-			if !ok || v.Ctx != O.Ctx {
-				continue
+		var handled DNF
+		frame, top := O.Ctx, true
+		var from ssa.Instruction = call
+		for depth := 0; frame != nil && depth < 4; depth++ {
+			match := func(p string) bool {
+				if top {
+					return p == fdPath
+				}
+				return fdField != "" && strings.HasSuffix(p, "."+fdField)
 			}
-			if !reachableFrom(call.Block(), r.Block()) {
-				continue
+			// effects that take care of the descriptor in this frame
+			for _, v := range w.Visits {
+				callV, ok := v.Instr.(*ssa.Call)
+				if !ok || v.Ctx != frame {
+					continue
+				}
+				cal := v.Ctx.calleeOf(&callV.Call)
+				if cal == nil {
+					continue
+				}
+				if fullName(cal) == "golang.org/x/sys/unix.Close" && match(stripIDs(v.Ctx.path(callV.Call.Args[0]))) {
+					handled = handled.or(v.Cond)
+				}
+				if a.P.inMain(cal) {
+					for _, arg := range callV.Call.Args {
+						ap := stripIDs(v.Ctx.path(arg))
+						if (match(ap) || !top && carries(frame, false, arg)) && storesInto(a, w, v, kf.fdTable) {
+							handled = handled.or(v.Cond) // receives the descriptor (or the record) and stores it in the table
+						}
+						if match(ap) && closesParam(a, w, v) {
+							handled = handled.or(closeCondIn(w, v)) // a helper that closes the descriptor it is given
+						}
+					}
+				}
 			}
-			T := a.safeAnd(v.Cond, O.Cond)
-			if T.isFalse() {
-				continue
+			handsOver := false
+			for _, v := range w.Visits {
+				r, ok := v.Instr.(*ssa.Return)
+				if !ok || v.Ctx != frame {
+					continue
+				}
+				if !reachableFrom(from.Block(), r.Block()) {
+					continue
+				}
+				T := a.safeAnd(v.Cond, O.Cond)
+				if T.isFalse() {
+					continue
+				}
+				over := false
+				if frame.Parent != nil {
+					for _, res := range r.Results {
+						if carries(frame, top, res) {
+							over = true
+						}
+					}
+				}
+				key := sprintf("open:return@%s(%s)", shortFn(r.Parent()), tail(stripCallArgs(stripIDs(returnSig(v))), 40))
+				if over {
+					// the caller takes over; its returns are checked in the next round. An error return that still carries
+					// the record is not a hand-over: require success of this call in the caller instead (below).
+					handsOver = true
+				}
+				goal := handled.or(failed)
+				h, ctr, err := implies(T, goal)
+				if err != nil {
+					a.R.fail("%v", err)
+				}
+				if over && !h {
+					continue // ownership moves to the caller on this path
+				}
+				if seen[key] && h {
+					continue
+				}
+				seen[key] = true
+				wit := "the descriptor was stored in the table or closed on every path to this return"
+				if !h {
+					wit = "the descriptor kept in " + fdPath + " is neither stored nor closed when " + stripIDs(ctr)
+				}
+				a.R.ob("C17.1", key, "after a successful open(2) on the add path every return has recorded the descriptor, closed it, or handed it to its caller", a.P.instrPos(r), h, wit)
 			}
-			h, ctr, err := implies(T, handled.or(failed))
-			if err != nil {
-				a.R.fail("%v", err)
+			if !handsOver || frame.Parent == nil {
+				break
 			}
-			key := sprintf("open:return@%s(%s)", shortFn(r.Parent()), tail(stripCallArgs(stripIDs(returnSig(v))), 40))
-			if seen[key] && h {
-				continue
+			site, ok := frame.Site.(*ssa.Call)
+			if !ok {
+				break
 			}
-			seen[key] = true
-			wit := "the descriptor was stored in the table or closed on every path to this return"
-			if !h {
-				wit = "the descriptor kept in " + fdPath + " is neither stored nor closed when " + stripIDs(ctr)
-			}
-			a.R.ob("C17.1", key, "after a successful open(2) on the add path every return has recorded the descriptor or closed it", a.P.instrPos(r), h, wit)
+			from = site
+			frame, top = frame.Parent, false
 		}
 	}
+}
+
+// afterSuccessfulAdd: v (somewhere below root) is reached only through the nil branch of a test of the error result of a
+// root-level call whose callee reaches open(2).
+func afterSuccessfulAdd(a *An, root *ssa.Function, v *Visit) bool {
+	// at every level of the calling chain: the instruction that leads to v, and the tests that dominate it
+	var at ssa.Instruction = v.Instr
+	for c := v.Ctx; c != nil && at != nil; at, c = c.Site, c.Parent {
+		if guardedByAddSuccess(a, at) {
+			return true
+		}
+	}
+	return false
+}
+
+func guardedByAddSuccess(a *An, at ssa.Instruction) bool {
+	reachesOpen := func(fn *ssa.Function) bool {
+		if fn == nil || !a.P.inMain(fn) {
+			return false
+		}
+		for _, u := range a.E.Walk(fn, WalkOpts{NoCond: true}).Visits {
+			if cal := visitCallee(u); cal != nil && fullName(cal) == "golang.org/x/sys/unix.Open" {
+				return true
+			}
+		}
+		return false
+	}
+	for b := at.Block(); b != nil; b = b.Idom() {
+		p := b.Idom()
+		if p == nil || len(p.Instrs) == 0 {
+			continue
+		}
+		iff, ok := p.Instrs[len(p.Instrs)-1].(*ssa.If)
+		if !ok {
+			continue
+		}
+		bin, ok := iff.Cond.(*ssa.BinOp)
+		if !ok || (bin.Op != token.EQL && bin.Op != token.NEQ) {
+			continue
+		}
+		var subj ssa.Value
+		switch {
+		case isNilConst(bin.Y):
+			subj = bin.X
+		case isNilConst(bin.X):
+			subj = bin.Y
+		default:
+			continue
+		}
+		var call *ssa.Call
+		switch x := subj.(type) {
+		case *ssa.Call:
+			call = x
+		case *ssa.Extract:
+			call, _ = x.Tuple.(*ssa.Call)
+		}
+		if call == nil || !isErrorType(subj.Type()) || !reachesOpen(call.Call.StaticCallee()) {
+			continue
+		}
+		// which successor of p is the nil branch, and does it dominate b?
+		nilIdx := 0
+		if bin.Op == token.NEQ {
+			nilIdx = 1
+		}
+		if s := p.Succs[nilIdx]; s == b || s.Dominates(b) {
+			if other := p.Succs[1-nilIdx]; other != b && !other.Dominates(b) {
+				return true
+			}
+		}
+	}
+	return false
+}
+
+// closesParam: the inlined package-local call at v closes (unix.Close) one of its own parameters.
+func closesParam(a *An, w *Walker, v *Visit) bool { return !closeCondIn(w, v).isFalse() }
+
+// closeCondIn: the condition under which the callee inlined at v closes a descriptor it received as a parameter.
+func closeCondIn(w *Walker, v *Visit) DNF {
+	d := dnfFalse()
+	for _, u := range w.Visits {
+		if u.Seq <= v.Seq || u.Ctx.Parent != v.Ctx || u.Ctx.Site != v.Instr {
+			continue
+		}
+		c2, ok := u.Instr.(*ssa.Call)
+		if !ok {
+			continue
+		}
+		if cal := u.Ctx.calleeOf(&c2.Call); cal != nil && fullName(cal) == "golang.org/x/sys/unix.Close" {
+			if _, isParam := stripConv(c2.Call.Args[0]).(*ssa.Parameter); isParam {
+				d = d.or(u.Cond)
+			}
+		}
+	}
+	return d
 }
 
 func (a *An) safeAnd(x, y DNF) (r DNF) {
@@ -615,12 +767,9 @@ func c17WatchList(a *An, kf *kqFacts) {
 					if !strings.Contains(kp, "path/filepath.Clean(") {
 						insOK = false
 					}
-					// after success of the add
-					succ, _ := v.Cond.everyConj(func(c Conj) bool {
-						return c.has(func(l Lit) bool {
-							return l.A.Kind == AkNil && !l.Neg && strings.Contains(l.A.Subj, "addWatch") || l.A.Kind == AkNil && !l.Neg && strings.HasSuffix(l.A.Subj, "#1")
-						})
-					})
+					// after success of the add: in the root function the insertion is control-dependent on "the error result of
+					// the call that opens the descriptor is nil"
+					succ := afterSuccessfulAdd(a, root, v)
 					if !succ {
 						insOK = false
 						ins = append(ins, "inserted without a successful add")
